@@ -332,3 +332,13 @@ package check
 //@   ensures[value] implies(result1 == nil && (op == t.IDEq || op == t.IDEqQuestion) && old(factsHold(q)), inB(result0, wval(rhs)))
 //@   ensures unchanged(q.facts) && unchanged(mem(q.facts))
 //@   modifies *q
+
+// makeSliceLengthEqEq builds the fact "x.length() == n" from a token whose text is a
+// decimal numeral (an iterate count, or the text of j - i for "s = a[i .. j]"). For
+// every such token, whatever the size of the number, it must not panic.
+//@ func (*checker).makeSliceLengthEqEq
+//@   prop C11
+//@   requires q != nil && x != nil
+//@   requires[numeral] decimalID(n)
+//@   ensures result != nil
+//@   pure
